@@ -121,6 +121,7 @@ type funcTrans struct {
 	isLemma  bool
 	localSorts map[string]*Sort
 	fspec *frameSpec
+	sendSites []token.Pos
 	iterMode string
 	envCells map[string]*Loc
 	ancMemo map[*ssa.BasicBlock]map[int]bool
@@ -282,8 +283,19 @@ func (ft *funcTrans) run() (err error) {
 		// a captured variable: the free variable is the address of its cell; the
 		// source-level name denotes the cell's content in the state at hand
 		if pt, ok := fv.Type().Underlying().(*types.Pointer); ok {
-			ft.envCells[fv.Name()] = ft.locOfRef(t.S, pt.Elem())
+			loc := ft.locOfRef(t.S, pt.Elem())
+			ft.envCells[fv.Name()] = loc
 			ft.env["&"+fv.Name()] = t
+			ft.env[fv.Name()+"0"] = ft.readLoc(ft.entry, loc) // value of the captured variable when the closure starts
+			// captured variables are distinct cells
+			for _, other := range fn.FreeVars {
+				if other == fv {
+					break
+				}
+				if ov, ok := ft.vals[other]; ok && ov.T.Sort.Kind == KRef {
+					w.addFact(fmt.Sprintf("(not (= %s %s))", t.S, ov.T.S))
+				}
+			}
 		} else {
 			ft.env[fv.Name()] = t
 		}
